@@ -30,6 +30,7 @@
         the program is, by induction on the run — argued, not mechanised).  The check therefore also samples:
         emitted bytes across 4 PYTHONHASHSEED values, repeated calls and fresh FFI objects, on cdefs that reach
         every audited site that emission can reach (sites hit are listed in the evidence).
+     whole function, file-like targets        C23_filelike_same_text (make_source)
    The skeleton of write_trace is hand-written; it is tied to the code by comparing the real I/O-call trace
    with it on every run, and its decisive parts are re-extracted from the source (Gen.v).
 
@@ -79,6 +80,22 @@ Theorem C23_final_state : forall old new,
 Proof. exact final_state. Qed.
 Print Assumptions C23_final_state.
 
+(* the WHOLE function (Model.make_source; its control skeleton — verbose message, Recompiler construction,
+   collect_type_table then collect_step_tables, the _is_file_like branch, NativeIO buffer, try block — is pinned
+   against the source on every run and the receivers/arguments/results are regenerated holes).  `gen a` is the text
+   recompiler.write_source_to_f(_, a) writes.  A file-like target (what cffi-gen-src and emit_c_code(StringIO)
+   use) gets exactly the text that a path target is compared with and, when updated, ends up holding; no file
+   operation happens and True is returned *)
+Theorem C23_filelike_same_text : forall gen rename_ok old,
+  make_source the_holes gen true rename_ok old = Some ([], Some (gen GPreamble), true) /\
+  make_source the_holes gen false rename_ok old =
+    Some (fst (write_trace the_holes rename_ok old (gen GPreamble)), None,
+          snd (write_trace the_holes rename_ok old (gen GPreamble))) /\
+  (snd (write_trace the_holes true old (gen GPreamble)) = true ->
+   f_target (run (fst (write_trace the_holes true old (gen GPreamble))) (fs0 old)) = Some (gen GPreamble)).
+Proof. exact filelike_same_text. Qed.
+Print Assumptions C23_filelike_same_text.
+
 (* outside the quantifier: if the first rename fails the unlink/rename fallback loses atomicity *)
 Theorem C23_fallback_not_atomic : exists old new k,
   let s := run (firstn k (fst (write_trace the_holes false old new))) (fs0 old) in
@@ -126,6 +143,11 @@ Theorem C23_emit_independent_of_set_order : forall (St : Type) (prog : list (ste
   Forall (step_ok St) prog -> fair o -> fair o' -> run_emitter St o 0 prog st = run_emitter St o' 0 prog st.
 Proof. intros St prog o o' st. apply run_oracle_independent. Qed.
 Print Assumptions C23_emit_independent_of_set_order.
+
+Example C23_example_filelike :
+  make_source the_holes (fun a => match a with GPreamble => [97;10] | GNone => [98] end) true true (Some [120]) =
+  Some ([], Some [97;10], true).
+Proof. vm_compute. reflexivity. Qed.
 
 (* non-vacuity: old "ab\n", new "ac\n": the seven operations and the states they go through *)
 Example C23_example :
